@@ -43,7 +43,8 @@ ASSUMPTIONS = [
 EVIDENCE_NOTES = [
     "ts pool: cached_free_pos is a plain field read and written by every allocator thread (a data race in the code); it is modelled as a sequentially consistent cell.  The model shows that this race WIDENS the known class beyond the alloc_idx ABA: (W1) alloc_idx completes a full cycle between an allocator's read of ptrs[expected] and its successful CAS (ABA); (W2) an allocator writes back a free_idx value loaded before other allocations moved alloc_idx (stale cache); (W3) an allocator's CAS succeeds although another allocator rewrote cached_free_pos after this one compared against it.  Each of W2/W3 alone leads to a double hand-out without any ABA (Example ts_cache_race_refuted).",
     "ts_no_double_handout_partial is proved in full for the finalised class (complement of: >= 2 allocator threads AND the model's sticky ghost flag t_race, raised exactly at W1/W2/W3).  Relative to DESIGN.md's first guess of the class ('alloc_idx completes a full cycle inside one read-to-CAS window') the proved safe region is smaller: W2 and W3 are flagged conservatively (any allocation between load and write-back; any foreign write of cached_free_pos between compare and CAS), although some such interleavings are harmless.",
-    "NOT proved: the visibility statement for the ts pool (every plain read of ptrs[] by the single allocator and every lock-protected write is covered by the thread's view: ghost counter t_uncov = 0).  The side condition ts_mo_ok on the extracted memory orders IS an obligation (c05_memory_orders_sufficient), and when it fails the check explores the model for an uncovered read (model_search), but no theorem 'ts_mo_ok P -> t_uncov = 0' was completed.",
+    "visibility: ts_reads_covered is proved for the single-allocator usage (every plain ptrs[] read / lock-protected write covered by the thread's view, given the extracted memory orders).  For several allocators it is REFUTED even outside the known class (ts_multi_visibility_refuted: an allocator that never synchronised reads an entry written by a free, because cached_free_pos is shared unsynchronised and the CAS on alloc_idx is relaxed) -- a C11 data race on ptrs[] that x86 cannot exhibit; recorded as an observation of the model, not replayable on the implementation.  sowr pool: no plain data crosses threads inside the pool (sowr_plain_fields_private).  ring pool: cursor / in_use=1 accesses are mutually exclusive and lock-ordered (ring_cursor_exclusive); that the next lock holder sees the previous holder's writes is C04's lock theorem for the same spinlock (composition, not re-proved with views here).",
+    "ring audit: in ts scenarios with at most one allocating thread the driver audits, at every harness scheduling point, that the published part of the ring [alloc_idx, free_idx) holds pairwise distinct blocks none of which is in the ownership map.  This makes the ORDER of the plain store ptrs[free_idx] = block and the publication of free_idx observable without editing the repository: a thread scheduled between an early publication and a late slot store finds a stale pointer (corpus/C05/ts-publish-before-slot-store.case).",
     "exhaustion exactness is claimed for the sowr pool and for the ts pool with ONE allocator thread (NULL only when exactly cap-1 blocks are out of the ring at the load of free_idx).  With several allocators an allocator may return NULL on a stale expected value although blocks have been freed meanwhile; the independent monitor accepts a NULL iff at some moment during the call at least cap-1 blocks were unavailable.",
     "granularity: the repository is not edited, so plain accesses inside one plain segment (e.g. the plain read of alloc_idx, the compare with cached_free_pos and the read of ptrs[expected]) are atomic together in both the model and the scheduled implementation; finer interleavings of these plain accesses are not explored",
 ]
@@ -422,6 +423,9 @@ def monitor(case, lines):
                     bump()
                 else:
                     return "harness anomaly: %s" % ln
+            elif w[2] == "AUDIT":
+                return ("ring audit (harness, at a scheduling point): %s -- the published part of the ring must hold "
+                        "distinct, unowned blocks at every instant" % " ".join(w[3:]))
             elif w[2] == "f":
                 if w[3] == "skip":
                     continue
